@@ -8,6 +8,7 @@ NAMES = ['com.example.A', 'com.example.B', 'com.example.A.Sub']
 IFACES = ['com.example.I', 'com.example.J', 'com.example.I.K']
 MEMBERS = ['Ma', 'Mb']
 PATHS = ['/', '/a', '/a/b', '/a/bc', '/ab']
+FOCUS_STRS = ['com.example', 'com.example.A', 'com', '/a/', '/a/b', '/a', '/']
 STRS = ['', 'x', 'com.example', 'com.example.A', 'com.example.Ab', '/a/', '/a/b', '/a', '/', 'a\'b', 'a\\b', 'a,b', ' ']
 ERRS = ['com.example.Err', 'org.freedesktop.DBus.Error.Failed']
 NOC_RULE = "type='signal',sender='org.freedesktop.DBus',interface='org.freedesktop.DBus',member='NameOwnerChanged'"
@@ -51,6 +52,7 @@ class Gen:
         self.monitors = set()
         self.speak = 0.08
         self.fdcap = 0.0
+        self.argfocus = 0.0
 
     # ---- pieces
     def connect_ops(self, s, sub=True):
@@ -64,6 +66,18 @@ class Gen:
 
     def rule(self):
         rng = self.rng
+        if rng.random() < self.argfocus:
+            # several argument keys of different kinds in one rule, values on the prefix / namespace boundaries
+            keys = ["type='signal'"] if rng.random() < 0.5 else []
+            kinds = [rng.choice(['', 'path', 'path', 'namespace']) for _ in range(3)]
+            for i in range(3):
+                if rng.random() < 0.25:
+                    continue
+                k = kinds[i] if (i == 0 or kinds[i] != 'namespace') else ''
+                v = rng.choice(['com.example', 'com'] if k == 'namespace' else FOCUS_STRS)
+                keys.append('arg%d%s=' % (i, k) + q(v, rng))
+            rng.shuffle(keys)
+            return ','.join(keys) or "type='signal'"
         if rng.random() < self.odd_rules:
             return rng.choice(["type='signal", "foo='bar'", "type='signal',type='signal'", "type='sig'",
                                "interface='nodots'", "member='a.b'", "path='a'", "path='/a',path_namespace='/a'",
@@ -88,13 +102,20 @@ class Gen:
             keys.append('path_namespace=' + q(rng.choice(PATHS), rng))
         if rng.random() < 0.15:
             keys.append('destination=' + q(rng.choice(self.names + ['{u%d}' % rng.choice(self.slots)]), rng))
-        r = rng.random()
-        if r < 0.2:
-            keys.append('arg%d=' % rng.choice([0, 0, 1, 2]) + q(rng.choice(STRS), rng))
-        elif r < 0.35:
-            keys.append('arg%dpath=' % rng.choice([0, 0, 1]) + q(rng.choice(STRS), rng))
-        elif r < 0.45:
-            keys.append('arg0namespace=' + q(rng.choice(['com', 'com.example', 'com.example.A', 'x']), rng))
+        # up to three argument keys on different indices, of mixed kinds (exact / path / namespace)
+        used = set()
+        for _ in range(0 if rng.random() >= 0.5 else rng.choice([1, 1, 1, 2, 2, 3])):
+            i = rng.choice([0, 0, 1, 1, 2])
+            if i in used:
+                continue
+            used.add(i)
+            r = rng.random()
+            if r < 0.45 or (r >= 0.8 and i != 0):
+                keys.append('arg%d=' % i + q(rng.choice(STRS), rng))
+            elif r < 0.8:
+                keys.append('arg%dpath=' % i + q(rng.choice(STRS), rng))
+            else:
+                keys.append('arg0namespace=' + q(rng.choice(['com', 'com.example', 'com.example.A', 'x']), rng))
         if rng.random() < self.eavesdrop:
             keys.append('eavesdrop=' + q(rng.choice(['true', 'true', 'false']), rng))
         rng.shuffle(keys)
@@ -137,12 +158,19 @@ class Gen:
         rng = self.rng
         r = rng.random()
         self.tok += 1
+        if rng.random() < self.argfocus:
+            sig = rng.choice(['sssu', 'sssu', 'ssu', 'sosu', 'ossu', 'soou'])
+            vals = [rng.choice(FOCUS_STRS if c == 's' else ['/a', '/a/b', '/a/', '/']) for c in sig[:-1]]
+            vals = [v if c == 's' or v == '/' else v.rstrip('/') for c, v in zip(sig, vals)]
+            return sig, vals + [self.tok]
         if r < 0.25:
             return 'u', [self.tok]
         if r < 0.55:
             return 'su', [rng.choice(STRS), self.tok]
         if r < 0.7:
             return 'ssu', [rng.choice(STRS), rng.choice(STRS), self.tok]
+        if r < 0.76:
+            return rng.choice(['sou', 'osu', 'oou']), [rng.choice(PATHS + ['/a/b', '/a']), rng.choice(PATHS + ['/a/b', '/']), self.tok]
         if r < 0.85:
             return 'ou', [rng.choice(PATHS), self.tok]
         if r < 0.92:
